@@ -376,7 +376,13 @@ class Ctx(object):
         if len(self.coverage['samples']) < limit:
             self.coverage['samples'].append(obj)
 
+    RESERVED = ('evaluations', 'distinct_nontrivial', 'rule', 'samples', 'states', 'transitions',
+                'traces_validated_against_impl', 'obligations', 'discharged', 'checker_cmd', 'trusted_base',
+                'programs', 'disagreements_checked', 'explanation', 'exhaustive')
+
     def histogram(self, name, key, n=1):
+        if name in self.RESERVED:
+            name += '_hist'           # never collide with a typed key of the evidence schema
         h = self.coverage.setdefault(name, {})
         h[str(key)] = h.get(str(key), 0) + n
 
